@@ -110,7 +110,7 @@ fn passes(bits: u8, x: &It) -> bool {
 }
 fn fm(bits: u8, x: It) -> Option<It> {
     if passes(bits, &x) {
-        Some(It(x.0 + 1000))
+        Some(It::new(x.0 + 1000))
     } else {
         None
     }
@@ -132,8 +132,8 @@ pub fn check_stage(st: &Stage, param: Option<usize>, inp: &[u32], got: &[u32]) -
             Some(c) => inp.iter().skip(c).cloned().collect(),
             None => vec![],
         },
-        Stage::Filter(b) => inp.iter().filter(|x| passes(*b, &It(**x))).cloned().collect(),
-        Stage::FilterMap(b) => inp.iter().filter_map(|x| fm(*b, It(*x)).map(|y| y.0)).collect(),
+        Stage::Filter(b) => inp.iter().filter(|x| passes(*b, &It::new(**x))).cloned().collect(),
+        Stage::FilterMap(b) => inp.iter().filter_map(|x| fm(*b, It::new(*x)).map(|y| y.0)).collect(),
         Stage::Sort => {
             let mut v = inp.to_vec();
             v.sort();
@@ -148,8 +148,8 @@ pub fn check_stage(st: &Stage, param: Option<usize>, inp: &[u32], got: &[u32]) -
                 return Err(format!("not a permutation of the input: input {:?}", inp));
             }
             for w in got.windows(2) {
-                if key_of(*t, &It(w[0])) > key_of(*t, &It(w[1])) {
-                    return Err(format!("not ordered by the comparison (keys {:?})", got.iter().map(|x| key_of(*t, &It(*x))).collect::<Vec<_>>()));
+                if key_of(*t, &It::new(w[0])) > key_of(*t, &It::new(w[1])) {
+                    return Err(format!("not ordered by the comparison (keys {:?})", got.iter().map(|x| key_of(*t, &It::new(*x))).collect::<Vec<_>>()));
                 }
             }
             return Ok(());
@@ -179,6 +179,8 @@ pub struct Scenario {
     pub drop_at_end: bool,
     /// drain the stream once more before the source is dropped (false: the first poll after the last step happens after the drop)
     pub final_drain: bool,
+    /// drop the stream (and everything downstream) right after this step without draining it; later steps only touch the source
+    pub abandon_at: Option<usize>,
 }
 
 impl Scenario {
@@ -191,6 +193,7 @@ impl Scenario {
             "batched": self.batched,
             "drop_at_end": self.drop_at_end,
             "final_drain": self.final_drain,
+            "abandon_stream_after_step": self.abandon_at,
         })
     }
     pub fn from_json(v: &serde_json::Value) -> Option<Scenario> {
@@ -207,7 +210,7 @@ impl Scenario {
             };
             steps.push((Op::parse(a)?, pm));
         }
-        Some(Scenario { cap: v["capacity"].as_u64()? as usize, initial: v["initial_len"].as_u64()? as usize, stages, steps, batched: v["batched"].as_bool()?, drop_at_end: v["drop_at_end"].as_bool().unwrap_or(true), final_drain: v["final_drain"].as_bool().unwrap_or(true) })
+        Some(Scenario { cap: v["capacity"].as_u64()? as usize, initial: v["initial_len"].as_u64()? as usize, stages, steps, batched: v["batched"].as_bool()?, drop_at_end: v["drop_at_end"].as_bool().unwrap_or(true), final_drain: v["final_drain"].as_bool().unwrap_or(true), abandon_at: v["abandon_stream_after_step"].as_u64().map(|x| x as usize) })
     }
 }
 
@@ -422,6 +425,24 @@ impl Flavour for Vec<VectorDiff<It>> {
 }
 
 fn run_impl<I: Flavour>(sc: &Scenario) -> Outcome {
+    let live0 = live();
+    let mut out = run_inner::<I>(sc);
+    // C20: every vector, stream, tap and diff of this history is gone now; no item may still be alive
+    if out.failure.is_none() && live() != live0 {
+        out.failure = Some(Failure {
+            property: "C20",
+            classification: format!("{}/leak", sc.stages.last().map(|s| s.name()).unwrap_or("subscriber")),
+            what: "items handed to the library (or clones it made) are still alive after every vector, stream and diff was dropped".to_string(),
+            step: sc.steps.len() + 2,
+            expected: "0 live items".to_string(),
+            observed: format!("{} live items", live() - live0),
+            also: vec![],
+        });
+    }
+    out
+}
+
+fn run_inner<I: Flavour>(sc: &Scenario) -> Outcome {
     let mut stats = RunStats::default();
     let mut fresh = Fresh(0);
     let mut ob = ObservableVector::<It>::with_capacity(sc.cap.max(1));
@@ -438,7 +459,9 @@ fn run_impl<I: Flavour>(sc: &Scenario) -> Outcome {
         all_stages.push(Stage::Identity);
     }
     all_stages.extend(sc.stages.iter().cloned());
-    let (mut rts, mut fin, _snap) = I::build(&ob, &all_stages);
+    let (mut rts, fin0, _snap) = I::build(&ob, &all_stages);
+    let mut fin = Some(fin0);
+    let mut abandoned = false;
     let mut closed_params: Vec<bool> = vec![false; rts.len()];
     let flag = Flag::new();
     let mut ob = Some(ob);
@@ -464,6 +487,12 @@ fn run_impl<I: Flavour>(sc: &Scenario) -> Outcome {
             if fail_stage < recv.len() {
                 for k in recv[fail_stage].iter() {
                     t.push(format!("recv:{}", k));
+                }
+                // what the stages below received (a defect of a lower stage can surface at a higher one)
+                for up in 1..fail_stage {
+                    for k in recv[up].iter() {
+                        t.push(format!("up:{}:recv:{}", rts[up].st.name(), k));
+                    }
                 }
             }
             t.sort();
@@ -529,6 +558,17 @@ fn run_impl<I: Flavour>(sc: &Scenario) -> Outcome {
                         }
                     }
                 }
+                Op::Tx(inner, TxEnd::DropStreamsThenCommit) => {
+                    if let Some(obv) = ob.as_mut() {
+                        apply_tx_with_midpoint(obv, inner, &mut fresh, || {
+                            fin = None;
+                            rts.clear();
+                        });
+                        abandoned = true;
+                        model.apply(op);
+                        model.next = fresh.0;
+                    }
+                }
                 o => {
                     if let Some(obv) = ob.as_mut() {
                         apply_real(obv, o, &mut fresh);
@@ -553,7 +593,15 @@ fn run_impl<I: Flavour>(sc: &Scenario) -> Outcome {
             ob = None;
             mode = PollMode::Drain;
         }
+        if abandoned {
+            continue;
+        }
         if mode == PollMode::None || ended {
+            if sc.abandon_at == Some(step) {
+                fin = None;
+                rts.clear();
+                abandoned = true;
+            }
             continue;
         }
         // ---- C14 (sleeping with work available): if the stream is parked and something observable changed, the waker must have fired
@@ -577,7 +625,7 @@ fn run_impl<I: Flavour>(sc: &Scenario) -> Outcome {
         // ---- poll
         let mut polls = 0;
         loop {
-            let r = poll_once(&mut fin, &flag);
+            let r = poll_once(fin.as_mut().unwrap(), &flag);
             polls += 1;
             match r {
                 Poll::Ready(Some(_item)) => {
@@ -666,6 +714,11 @@ fn run_impl<I: Flavour>(sc: &Scenario) -> Outcome {
                         for k in recv[si].iter() {
                             t.push(format!("recv:{}", k));
                         }
+                        for up in 1..si {
+                            for k in recv[up].iter() {
+                                t.push(format!("up:{}:recv:{}", rts[up].st.name(), k));
+                            }
+                        }
                         t.sort();
                         t.dedup();
                         pending_c13 = Some(Failure { property: "C13", classification: format!("{}/{}", st.name(), t.join("+")), what: "after an emitted batch the rebuilt view is not the adapter's view of any state the source had between top-level operations".to_string(), step, expected: format!("view of one of {:?}", &top_states[matched_state..]), observed: format!("{:?}", got), also: vec![] });
@@ -706,6 +759,12 @@ fn run_impl<I: Flavour>(sc: &Scenario) -> Outcome {
             // a closed parameter stream must not end the adapter
             fail!(prop_of(sc.stages.last().unwrap_or(&Stage::Sort)), sc.stages.last().map(|s| s.name()).unwrap_or("subscriber"), "stream ended while the source is alive".to_string(), step, "Pending".into(), "None".into());
         }
+        if sc.abandon_at == Some(step) {
+            fin = None;
+            rts.clear();
+            abandoned = true;
+            continue;
+        }
         if ob.is_none() && !ended && mode == PollMode::Drain {
             fail!(prop_of(sc.stages.last().unwrap_or(&Stage::Sort)), sc.stages.last().map(|s| s.name()).unwrap_or("subscriber"), "source dropped but the stream did not end".to_string(), step, "None".into(), "Pending".into());
         }
@@ -724,8 +783,8 @@ fn expected_view(st: &Stage, param: Option<usize>, inp: &[u32]) -> Vec<u32> {
         Stage::Head(_) | Stage::HeadDyn | Stage::HeadDynInit(_) => param.map(|l| inp.iter().take(l).cloned().collect()).unwrap_or_default(),
         Stage::Tail(_) | Stage::TailDyn | Stage::TailDynInit(_) => param.map(|l| inp.iter().skip(inp.len().saturating_sub(l)).cloned().collect()).unwrap_or_default(),
         Stage::Skip(_) | Stage::SkipDyn | Stage::SkipDynInit(_) => param.map(|c| inp.iter().skip(c).cloned().collect()).unwrap_or_default(),
-        Stage::Filter(b) => inp.iter().filter(|x| passes(*b, &It(**x))).cloned().collect(),
-        Stage::FilterMap(b) => inp.iter().filter_map(|x| fm(*b, It(*x)).map(|y| y.0)).collect(),
+        Stage::Filter(b) => inp.iter().filter(|x| passes(*b, &It::new(**x))).cloned().collect(),
+        Stage::FilterMap(b) => inp.iter().filter_map(|x| fm(*b, It::new(*x)).map(|y| y.0)).collect(),
         Stage::Sort => {
             let mut v = inp.to_vec();
             v.sort();
@@ -733,7 +792,7 @@ fn expected_view(st: &Stage, param: Option<usize>, inp: &[u32]) -> Vec<u32> {
         }
         Stage::SortBy(t) | Stage::SortByKey(t) => {
             let mut v = inp.to_vec();
-            v.sort_by_key(|x| key_of(*t, &It(*x)));
+            v.sort_by_key(|x| key_of(*t, &It::new(*x)));
             v
         }
     }
